@@ -14,6 +14,7 @@ RULE = ("seeded CP model specs, one constraint kind at a time over all small par
 ASSUMPTIONS = ["<= 5 named variables, domain product <= 4096, <= ~80 Boolean variables",
                "zero-duration tasks excluded from no_overlap here (convention not fixed by the property)",
                "circuit on a single node excluded"]
+QUICK_SCALE = 3  # quick-tier multiplier (idle 16-core timing: ~10 s at scale 1)
 STRATA = [
     ("single-rel", 700, 14000),
     ("single-alldiff", 200, 4000),
